@@ -107,6 +107,11 @@ theorem parse_preJ {K : Consts} {ts : TypeSystem} {cass : List Cas} {c : Cas} {c
   rw [ho] at ho_; cases ho_
   rw [ht] at ht_; cases ht_
   obtain ⟨hend, hjf⟩ := hj o t ho ht
+  have hNJ : NamesJ t := by
+    intro f hf
+    obtain ⟨h1, h2, h3, _⟩ := hjf f hf
+    obtain ⟨hr, _, h5, h6, _⟩ := hfeat f hf
+    exact ⟨hr, h6, h5, h1, h2, h3⟩
   have hnames : ∀ f ∈ allFeatures t, NameOk f.name := by
     intro f hf
     obtain ⟨h1, h2, h3, _⟩ := hjf f hf
@@ -146,7 +151,8 @@ theorem parse_preJ {K : Consts} {ts : TypeSystem} {cass : List Cas} {c : Cas} {c
   refine ⟨resObj s.fss (tgtF cass H o) (allFeatures t) o0, resDef s.fss (tgtF cass H o) s.heap.length (allFeatures t),
     ?_, ?_, ?_, ?_, ?_, ?_⟩
   · intro heapF hconv
-    have hgt : getType ts (flatJFs ts cass H q.1 o t).ty = .ok t := getType_of_find ht
+    rw [parseFs_flatJFs K ts tsIdx s cass H q.1 o t hNJ]
+    have hgt : getType ts (flatJFsS ts cass H q.1 o t).ty = .ok t := getType_of_find ht
     have hpa' : isPrimitiveArray K t.name = false := by rw [htn]; exact hpa
     have hfa' : t.name ≠ FS_ARRAY := by rw [htn]; exact hfa
     refine parseFs_steps K ts tsIdx s _ t q.1 _ o0 _ heapF _ hend hgt rfl hpa' hfa' hN ?_ ?_ hconv
